@@ -12,6 +12,9 @@ Seams (`seam` in the case parameters)
                          in-memory transport, independent client parser) with the lock-step worker thread of
                          DESIGN 2.7 (`mc/x_c17_lockstep.py`); asyncio only (trio threads cannot run under the
                          instrumented trio clock)
+  tg:vloop / mw:vloop    (flow group only) hypercorn's asyncio `TaskGroup.spawn_app` / `AsyncioWSGIMiddleware` on a bare
+                         `VLoop` with the lock-step worker thread: exactly one of {loop, WSGI thread} runs at any time,
+                         so what the WSGI thread observes of the sends is reproducible even when the bridge is broken
 
 What is enumerated (LEVEL exploration: exhaustive products of finite alphabets, no schedule axis)
   env    request targets (escapes, %2F, %25, non-ASCII UTF-8, doubled slash, escaped prefix) x root_path
@@ -19,10 +22,22 @@ What is enumerated (LEVEL exploration: exhaustive products of finite alphabets, 
          header sets (none / content headers / repeated / empty+latin-1+comma values) x HTTP version x scheme x
          client/server addresses x method x scope variant (all optional ASGI keys present / absent)
   app    WSGI application shapes: list, generator with eager start_response, generator with LAZY start_response,
-         iterator object with close() (eager and lazy), start_response twice with exc_info, raising before / after
-         start_response, raising mid-iteration (generator / closeable iterator), raising on the first next(), never
-         calling start_response (list / closeable iterator) x status x response header sets x chunkings
-         (none, empty chunks, 70 kB)
+         iterator object with close() (eager and lazy), start_response twice with exc_info - in the callable, or while
+         the FIRST chunk is produced (closeable iterator / generator with eager start / generator whose two
+         start_response calls are both lazy) -, raising before / after start_response, raising mid-iteration
+         (generator / closeable iterator; with the chunking `none` that is on the first next(), after an eager
+         start_response), raising after a lazy start_response before the first chunk, empty chunks then raising,
+         raising on the first next(), never calling start_response (list / closeable iterator) x status x response
+         header sets x chunkings (none, empty chunks, 70 kB)
+  flow   the ASGI send the WSGI thread is bridged to does not complete at once.  Direct seams (4 real loops + 2
+         lock-step): every send parks on a gate (real loops: 3 scheduler passes; lock-step: released one at a time,
+         oldest first, only when nothing else can run) x {all succeed, send number 0..3 raises} x 12 shapes
+         (instrumented iterables, >= 2 chunks, empty chunks, failing shapes) x 2 heads x 4 chunkings.  End to end:
+         the peer is not reading when the request arrives and every chunk of the 70 kB chunkings is above the
+         transport's high-water mark / the HTTP/2 window, so `drain()` really blocks x peer behaviour {reads one
+         buffer-full at a time, starts reading for good, resets at once, reads once then resets}.  A tap on the
+         send counts sends begun / completed / failed and the body bytes of completed sends; the application
+         snapshots those counters every time it runs (next / stop / raise / close)
   body   wsgi_max_body_size L x body sizes {0, L-1, L, L+1, L+3} x delivery (1 message, 3 messages, stream style,
          limit crossed early with more messages pending, no `body` key) x shapes
   ws     WebSocket scopes
@@ -33,7 +48,15 @@ Oracle clauses (expected values from mc/x_c17_ref.py: PEP 3333 / RFC 3875 / ASGI
   environ-*                                  method, SCRIPT_NAME/PATH_INFO split, query, protocol, scheme, headers,
                                              addresses, wsgi.* keys, native-string types, wsgi.input == request body
   response-*                                 status / headers / concatenated body seen by the client equal what the
-                                             shape produced (lazy or eager); for failing shapes only a prefix, or 5xx
+                                             shape produced (lazy or eager; a head replaced with exc_info before the
+                                             first chunk is the one that counts); for failing shapes only a prefix, or 5xx
+  response-head-before-data                  a shape that calls start_response and fails before its iterable yielded
+                                             anything: the status it set must not reach the client (PEP 3333: headers
+                                             go out with the first body data or at exhaustion) - 5xx or nothing
+  bridge-order                               (flow) each time the application thread runs, no send is in flight and the
+                                             completed sends carried exactly the chunks yielded so far (so chunk k+1 is
+                                             produced after send k completed, close() after the last one); after a send
+                                             raised the only thing the application still sees is close()
   close-count, close-order                   close() of the returned iterable exactly once, after the last next()
   body-limit                                 > L -> 400, complete, callable not invoked; <= L -> invoked
   websocket-refusal                          never accepted, callable not invoked
@@ -55,14 +78,15 @@ from mc.explore import ExecResult, V, _account, _blank_result
 
 ID = "C17"
 LEVEL = "exploration"
-TECHNIQUE = ("bounded exhaustive enumeration (cartesian products of finite request / application-shape alphabets) of "
-             "executions of the real WSGIWrapper and WSGI middlewares with a real worker thread, on real asyncio and "
-             "trio loops and end-to-end on the virtual-time engine with a lock-step executor; reference PEP 3333 "
-             "environ builder and response model as oracle")
-RULE = ("case = seam x request spec x application shape x body limit x body delivery; one execution per case; "
-        "non-trivial = the WSGI callable was invoked or a refusal (400 / 404 / websocket close) was decided; distinct "
-        "by digest of (environ snapshot, application event log, messages / parsed response seen by the client, "
-        "logged errors)")
+TECHNIQUE = ("bounded exhaustive enumeration (cartesian products of finite request / application-shape / send-behaviour / "
+             "peer-behaviour alphabets) of executions of the real WSGIWrapper and WSGI middlewares with a real worker "
+             "thread, on real asyncio and trio loops, on a bare virtual loop and end-to-end on the virtual-time engine "
+             "with a lock-step executor (gated / failing ASGI sends, paused / slow / resetting peers so that drain() "
+             "blocks); reference PEP 3333 environ builder, response model and thread-bridge ordering model as oracle")
+RULE = ("case = seam x request spec x application shape x body limit x body delivery [x send behaviour | peer behaviour]; "
+        "one execution per case; non-trivial = the WSGI callable was invoked or a refusal (400 / 404 / websocket close) "
+        "was decided; distinct by digest of (environ snapshot, application event log, messages / parsed response seen "
+        "by the client, logged errors, and - lock-step seams - the send counters the application thread saw)")
 ASSUMPTIONS = [
     "no schedule axis: the worker thread runs concurrently with an otherwise idle loop (direct seams) or in "
     "lock-step with the virtual loop (e2e); C17 quantifies over inputs and programs only",
@@ -73,18 +97,30 @@ ASSUMPTIONS = [
     "5xx' is demanded, not how the failure is signalled",
     "the legacy write() callable returned by start_response and start_response re-raising exc_info after output "
     "has begun are not covered",
+    "'headers must not be sent until there is actual body data' is demanded for 'no chunk yielded yet'; whether an "
+    "EMPTY first chunk may already commit the head (wsgiref does, the PEP text says non-empty) is not judged "
+    "(C17_STRICT_NONEMPTY=1 switches the literal reading on for investigation)",
+    "flow group: a send 'takes over' its message when it begins and completes later (a slow consumer that keeps "
+    "arrival order); gates open oldest first; on the real-loop seams the send counters are only reproducible while "
+    "the bridge is synchronous, so they are judged but kept out of the outcome digest",
+    "flow group end to end: the slow peer reads a whole transport buffer at a time; one request per connection",
 ]
 BOUNDS_DOC = {
     "quick": "env: two sub-products (12 targets x 5 roots x 3 queries x 4 header sets x 2 scope variants x GET/POST; "
              "3 target/root pairs x header sets x 3 versions x 2 schemes x 3 address kinds x 3 methods x 2 variants); "
-             "app: full product of 13 shapes x 3 statuses x 4 header sets x 6 chunkings (x 2 requests); body: L in "
-             "{0,4} x 5 sizes x up to 6 deliveries x 3 shapes; all on the 4 direct seams; e2e sub-alphabets on h1 and h2",
+             "app: full product of 19 shapes x 3 statuses x 4 header sets x 6 chunkings (854 programs x 2 requests); "
+             "body: L in {0,4} x 5 sizes x up to 6 deliveries x 3 shapes; all on the 4 direct seams; flow: 12 shapes x "
+             "2 heads x 4 chunkings x 5 send behaviours (all gated; send 0..3 raises) = 450 cases on each of the 4 "
+             "real-loop seams and the 2 lock-step seams; e2e sub-alphabets on h1 and h2, e2e flow: 12 shapes x 3 "
+             "chunkings (two of them 70 kB per chunk) x 4 peer behaviours = 136 cases per carrier",
     "thorough": "env: the full product of every request axis (77 760 requests) on each of the 4 direct seams; "
-                "app/body as quick plus L in {1,65536}; e2e as quick",
+                "app/body as quick plus L in {1,65536}; flow and e2e as quick",
 }
 BUDGET = {"quick": 55, "thorough": 1100}
 
 WATCHDOG_S = 60.0
+# opt-in (not part of the check): read PEP 3333's "actual body data" literally - see x_c17_ref.Expected.no_head
+ref.STRICT_NONEMPTY[0] = bool(os.environ.get("C17_STRICT_NONEMPTY"))
 DIRECT_SEAMS = ("tg:asyncio", "tg:trio", "mw:asyncio", "mw:trio")
 
 # ---------------------------------------------------------------------------------------------
@@ -127,8 +163,16 @@ CHUNKSETS: Dict[str, Tuple[bytes, ...]] = {
     "empty_first": (b"", b"x"),
     "big": (b"z" * 70000, b"tail"),
 }
+# chunk sets used by the flow groups only (every chunk of BIG2 alone is above the transport's 64 KiB high-water mark
+# and above the initial HTTP/2 window)
+FLOW_CHUNKSETS: Dict[str, Tuple[bytes, ...]] = {
+    "three": (b"1", b"22", b"333"),
+    "big2": (b"z" * 70000, b"y" * 70000, b"tail"),
+}
+ALL_CHUNKSETS: Dict[str, Tuple[bytes, ...]] = {**CHUNKSETS, **FLOW_CHUNKSETS}
 # axes a shape does not look at are pinned so that no case is counted twice
-KIND_IGNORES_CHUNKS = ("twice_excinfo", "raise_before_sr", "raise_after_sr", "raise_lazy_first")
+KIND_IGNORES_CHUNKS = ("twice_excinfo", "raise_before_sr", "raise_after_sr", "raise_lazy_first", "raise_lazy_after_sr",
+                       "raise_after_empties_gen")
 KIND_IGNORES_STATUS = ("raise_before_sr", "raise_lazy_first", "no_sr_list", "no_sr_iter_close")
 
 BASE_APP = ("list", "200 OK", "ct", "one")
@@ -209,6 +253,14 @@ def direct_cases(tier: str, group: str, seam: str) -> List[tuple]:
                 for split in splits:
                     for kind in ("list", "gen_lazy", "iter_close"):
                         cases.append((seam, http_req("POST", b"/upload", body_n=n), (kind, "200 OK", "ct", "mixed"), L, split))
+    elif group == "flow":
+        rq = http_req("GET", b"/")
+        for kind in FLOW_KINDS:
+            for status, rh in FLOW_HEADS:
+                for ch in ("three", "mixed", "empty_first", "none"):
+                    spec = (kind, status, rh, "one" if kind in KIND_IGNORES_CHUNKS else ch)
+                    for mode in FLOW_MODES:
+                        cases.append((seam, rq, spec, 64, "1", mode))
     elif group == "ws":
         for p in (b"/", b"/app/ws"):
             for r in ("", "/app"):
@@ -245,6 +297,13 @@ def e2e_cases(tier: str, group: str, seam: str) -> List[tuple]:
         for spec in app_specs():
             if spec[1] in statuses and spec[2] in rhs and spec[3] in chs:
                 cases.append((seam, rq, spec, 64, "1"))
+    elif group == "flow":
+        rq = http_req("GET", b"/app/x", b"q=1", "/app", "content", ver, sch, "e2e", 0)
+        for kind in FLOW_KINDS:
+            for ch in ("big2", "big", "mixed"):
+                spec = (kind, "201 Created", "cookies", "one" if kind in KIND_IGNORES_CHUNKS else ch)
+                for peer in E2E_PEERS:
+                    cases.append((seam, rq, spec, 64, "1", peer))
     elif group == "body":
         for L in (0, 4):
             for n in sorted({0, max(L - 1, 0), L, L + 1, L + 3}):
@@ -276,6 +335,14 @@ def cases_of(tier: str, group: str, seam: str) -> List[tuple]:
 
 
 BATCH = 250
+# flow groups: applications whose iterable is instrumented (plus the plain list), >= 2 chunks, every send gated
+FLOW_KINDS = ("list", "gen_eager", "gen_lazy", "iter_close", "iter_close_lazy", "iterable_close", "excinfo_first_iter",
+              "excinfo_first_gen", "excinfo_lazy_gen", "raise_mid_gen", "raise_mid_iter_close", "raise_after_empties_gen")
+FLOW_HEADS = (("200 OK", "ct"), ("404 Not Found", "cookies"))
+FLOW_MODES = ("g", "gf0", "gf1", "gf2", "gf3")  # every send gated; gf<j>: send number j (0 = the first) raises
+FLOW_SEAMS = DIRECT_SEAMS + ("tg:vloop", "mw:vloop")
+# e2e flow group: what the peer does while the response is produced (it is not reading when the request arrives)
+E2E_PEERS = ("slow", "stall", "reset", "slow-reset")
 
 
 def scenarios(tier: str) -> List[Any]:
@@ -285,8 +352,12 @@ def scenarios(tier: str) -> List[Any]:
             n = len(cases_of(tier, group, seam))
             nb = max(1, (n + BATCH - 1) // BATCH)
             out.extend(("batch", group, seam, i, nb) for i in range(nb))
+    for seam in FLOW_SEAMS:
+        n = len(cases_of(tier, "flow", seam))
+        nb = max(1, (n + BATCH - 1) // BATCH)
+        out.extend(("batch", "flow", seam, i, nb) for i in range(nb))
     for seam in ("e2e:h1", "e2e:h2"):
-        for group in ("env", "app", "body"):
+        for group in ("env", "app", "body", "flow"):
             n = len(cases_of(tier, group, seam))
             nb = max(1, (n + 100 - 1) // 100)
             out.extend(("batch", group, seam, i, nb) for i in range(nb))
@@ -366,12 +437,51 @@ class Rec:
         self.events: List[str] = []
         self.close_count = 0
         self.cleanup_count = 0
+        self.flow: Optional["Flow"] = None  # flow groups: the tap on the ASGI send the application thread is bridged to
+        self.marks: List[tuple] = []  # (event, begun, ended, failed, ended_body_len) at next / stop / raise / close
+
+
+class Flow:
+    """Counters of the ASGI `send` the WSGI thread is bridged to.  Written on the loop thread, read on the
+    application thread (under the lock-step executor only one of the two runs at any time; on real loops the
+    application thread is - if the bridge is synchronous - parked inside a send whenever the counters change)."""
+
+    def __init__(self) -> None:
+        self.begun = 0
+        self.ended = 0
+        self.failed = 0
+        self.body_len = 0
+
+    def snapshot(self) -> tuple:
+        return (self.begun, self.ended, self.failed, self.body_len)
+
+    def done(self, message: Any, error: Optional[BaseException]) -> None:
+        self.ended += 1
+        if error is not None:
+            self.failed += 1
+        elif isinstance(message, dict) and message.get("type") == "http.response.body":
+            self.body_len += len(message.get("body", b""))
+
+
+class SendFailed(Exception):
+    """What the harness' ASGI send raises in the `gf<j>` flow modes."""
 
 
 def make_app(spec: tuple, rec: Rec) -> Callable:
     kind, status, rh, ch = spec
     headers = list(RHDRSETS[rh])
-    chunks = list(CHUNKSETS[ch])
+    chunks = list(ALL_CHUNKSETS[ch])
+
+    def note(ev: str) -> None:
+        rec.events.append(ev)
+        if rec.flow is not None:
+            rec.marks.append((ev,) + rec.flow.snapshot())
+
+    def replace_head(sr: Callable) -> None:
+        try:
+            raise ValueError("handled inside the application")
+        except ValueError:
+            start(sr, ref.EXCINFO_STATUS, list(ref.EXCINFO_HEADERS), sys.exc_info())
 
     def enter(environ: Any) -> None:
         rec.invocations += 1
@@ -389,9 +499,11 @@ def make_app(spec: tuple, rec: Rec) -> Callable:
         return sr(*args)
 
     class Iter:
-        def __init__(self, sr: Optional[Callable] = None, raise_at: Optional[int] = None) -> None:
+        def __init__(self, sr: Optional[Callable] = None, raise_at: Optional[int] = None,
+                     replace: Optional[Callable] = None) -> None:
             self.sr = sr
             self.raise_at = raise_at
+            self.replace = replace
             self.i = 0
 
         def __iter__(self) -> "Iter":
@@ -403,36 +515,47 @@ def make_app(spec: tuple, rec: Rec) -> Callable:
             if self.sr is not None:
                 sr, self.sr = self.sr, None
                 start(sr, status, headers)
+            if self.replace is not None:  # the first chunk cannot be produced: replace the (unsent) response
+                sr, self.replace = self.replace, None
+                replace_head(sr)
             if self.raise_at is not None and self.i == self.raise_at:
-                rec.events.append("raise")
+                note("raise")
                 raise AppError("mid-iteration")
-            if self.i >= len(chunks):
-                rec.events.append("stop")
+            if self.i >= len(self.chunks):
+                note("stop")
                 raise StopIteration
             self.i += 1
-            rec.events.append("next")
-            return chunks[self.i - 1]
+            note("next")
+            return self.chunks[self.i - 1]
 
         def close(self) -> None:
             rec.close_count += 1
-            rec.events.append("close")
+            note("close")
 
-    def gen(sr: Optional[Callable], upto: Optional[int] = None, fail_first: bool = False) -> Any:
+    Iter.chunks = chunks  # type: ignore[attr-defined]
+
+    def gen(sr: Optional[Callable], upto: Optional[int] = None, fail_first: bool = False,
+            replace: Optional[Callable] = None, fail_after_sr: bool = False, body: Optional[List[bytes]] = None) -> Any:
         try:
             if fail_first:
-                rec.events.append("raise")
+                note("raise")
                 raise AppError("first next()")
             if sr is not None:
                 start(sr, status, headers)
-            for i, c in enumerate(chunks):
+            if fail_after_sr:
+                note("raise")
+                raise AppError("after the lazy start_response, before the first chunk")
+            if replace is not None:
+                replace_head(replace)
+            for i, c in enumerate(chunks if body is None else body):
                 if upto is not None and i >= upto:
                     break
-                rec.events.append("next")
+                note("next")
                 yield c
             if upto is not None:
-                rec.events.append("raise")
+                note("raise")
                 raise AppError("mid-iteration")
-            rec.events.append("stop")
+            note("stop")
         finally:
             rec.cleanup_count += 1
 
@@ -458,30 +581,42 @@ def make_app(spec: tuple, rec: Rec) -> Callable:
                 def __iter__(self) -> Any:
                     def it() -> Any:
                         for c in chunks:
-                            rec.events.append("next")
+                            note("next")
                             yield c
-                        rec.events.append("stop")
+                        note("stop")
                     return it()
 
                 def close(self) -> None:
                     rec.close_count += 1
-                    rec.events.append("close")
+                    note("close")
 
             start(sr, status, headers)
             return Iterable()
         if kind == "twice_excinfo":
             start(sr, status, headers)
-            try:
-                raise ValueError("handled inside the application")
-            except ValueError:
-                start(sr, ref.EXCINFO_STATUS, list(ref.EXCINFO_HEADERS), sys.exc_info())
+            replace_head(sr)
             return list(ref.EXCINFO_CHUNKS)
+        if kind == "excinfo_first_iter":
+            start(sr, status, headers)
+            it = Iter(replace=sr)
+            it.chunks = list(ref.EXCINFO_CHUNKS) + chunks  # type: ignore[attr-defined]
+            return it
+        if kind == "excinfo_first_gen":
+            start(sr, status, headers)
+            return gen(None, replace=sr, body=list(ref.EXCINFO_CHUNKS) + chunks)
+        if kind == "excinfo_lazy_gen":
+            return gen(sr, replace=sr, body=list(ref.EXCINFO_CHUNKS) + chunks)
+        if kind == "raise_lazy_after_sr":
+            return gen(sr, fail_after_sr=True)
+        if kind == "raise_after_empties_gen":
+            start(sr, status, headers)
+            return gen(None, upto=len(ref.EMPTIES), body=list(ref.EMPTIES) + [b"never"])
         if kind == "raise_before_sr":
-            rec.events.append("raise")
+            note("raise")
             raise AppError("before start_response")
         if kind == "raise_after_sr":
             start(sr, status, headers)
-            rec.events.append("raise")
+            note("raise")
             raise AppError("after start_response")
         if kind == "raise_mid_gen":
             start(sr, status, headers)
@@ -551,11 +686,96 @@ def _config(out: Out) -> Any:
     return cfg
 
 
-def run_direct(seam: str, scope: dict, messages: List[dict], app: Callable, L: int) -> Out:
+GATE_YIELDS = 3  # real loops: a gated send gives the loop back this many times before it completes
+
+
+def _gated_send(out: Out, flow: "Flow", fail_at: Optional[int], gate: Callable, finished: Callable) -> Callable:
+    """The ASGI send of the flow groups: a slow consumer.  A message is taken over when the send begins (sends that
+    begin in order are processed in order) but the call only returns after `gate()`; send number `fail_at` is not
+    taken over and raises SendFailed after its gate."""
+
+    async def send(m: Any) -> None:
+        if m is None:
+            out.ended += 1
+            finished()
+            return
+        idx = flow.begun
+        flow.begun += 1
+        fail = idx == fail_at
+        if not fail:
+            out.sent.append(_copy_msg(m))
+        err: Optional[Exception] = None
+        try:
+            await gate()
+            if fail:
+                err = SendFailed(f"send #{idx} {m.get('type')}")
+                raise err
+        finally:
+            flow.done(m, err)
+
+    return send
+
+
+def run_direct_vloop(how: str, scope: dict, messages: List[dict], app: Callable, L: int, flow: "Flow",
+                     fail_at: Optional[int]) -> Out:
+    """tg:vloop / mw:vloop - hypercorn's asyncio TaskGroup.spawn_app (resp. AsyncioWSGIMiddleware) on a bare virtual
+    loop with the lock-step worker thread: every send parks on a gate, gates are opened one at a time, oldest
+    first, and only when nothing else can run (the worker is then blocked in the bridge, or has run ahead)."""
     from hypercorn.app_wrappers import WSGIWrapper
+    from hypercorn.asyncio.task_group import TaskGroup as ATaskGroup
+    from hypercorn.middleware.wsgi import AsyncioWSGIMiddleware
+
+    from mc import x_c17_lockstep
 
     out = Out()
+    out.loop_thread = threading.get_ident()
+    gates: List[Any] = []
+
+    def on_idle(loop: Any) -> bool:
+        while gates:
+            fut = gates.pop(0)
+            if not fut.done():
+                fut.set_result(None)
+                return True
+        return False
+
+    async def main(loop: Any) -> None:
+        done = asyncio.Event()
+
+        async def gate() -> None:
+            fut = loop.create_future()
+            gates.append(fut)
+            await fut
+
+        send = _gated_send(out, flow, fail_at, gate, done.set)
+        if how == "tg":
+            async with ATaskGroup(loop) as tg:
+                put = await tg.spawn_app(WSGIWrapper(app, L), _config(out), scope, send)
+                for m in messages:
+                    await put(m)
+                await done.wait()
+        else:
+            q: asyncio.Queue = asyncio.Queue()
+            for m in messages:
+                q.put_nowait(m)
+            try:
+                await AsyncioWSGIMiddleware(app, L)(scope, q.get, send)
+            except Exception as e:
+                out.raised = type(e).__name__
+
+    out.problems += x_c17_lockstep.run_on_vloop(main, on_idle)
+    return out
+
+
+def run_direct(seam: str, scope: dict, messages: List[dict], app: Callable, L: int, flow: Optional["Flow"] = None,
+               fail_at: Optional[int] = None) -> Out:
+    from hypercorn.app_wrappers import WSGIWrapper
+
     how, engine = seam.split(":")
+    if engine == "vloop":
+        assert flow is not None
+        return run_direct_vloop(how, scope, messages, app, L, flow, fail_at)
+    out = Out()
     if engine == "asyncio":
         from hypercorn.asyncio.task_group import TaskGroup as ATaskGroup
         from hypercorn.middleware.wsgi import AsyncioWSGIMiddleware
@@ -571,6 +791,13 @@ def run_direct(seam: str, scope: dict, messages: List[dict], app: Callable, L: i
                     done.set()
                 else:
                     out.sent.append(_copy_msg(m))
+
+            async def gate() -> None:
+                for _ in range(GATE_YIELDS):
+                    await asyncio.sleep(0)
+
+            if flow is not None:
+                send = _gated_send(out, flow, fail_at, gate, done.set)  # type: ignore[assignment]
 
             if how == "tg":
                 async with ATaskGroup(loop) as tg:
@@ -619,6 +846,13 @@ def run_direct(seam: str, scope: dict, messages: List[dict], app: Callable, L: i
                 else:
                     out.sent.append(_copy_msg(m))
 
+            async def gate() -> None:
+                for _ in range(GATE_YIELDS):
+                    await trio.sleep(0)
+
+            if flow is not None:
+                send = _gated_send(out, flow, fail_at, gate, done.set)  # type: ignore[assignment]
+
             if how == "tg":
                 async with TTaskGroup() as tg:
                     put = await tg.spawn_app(WSGIWrapper(app, L), _config(out), scope, send)
@@ -651,7 +885,61 @@ def run_direct(seam: str, scope: dict, messages: List[dict], app: Callable, L: i
 _LOCKSTEP = [False]
 
 
-def run_e2e(seam: str, req: ref.Req, app: Callable, L: int, split: str) -> Out:
+SLOW_STEPS = 24
+
+
+class Probe:
+    """A tap on the ASGI `send` the WSGIWrapper is handed by hypercorn's task group (e2e flow group): counts
+    sends begun / completed / failed and the body bytes of the completed ones; everything is passed through."""
+
+    def __init__(self, inner: Any, flow: "Flow") -> None:
+        self.inner = inner
+        self.flow = flow
+
+    async def __call__(self, scope: Any, receive: Any, send: Any, sync_spawn: Any, call_soon: Any) -> None:
+        flow = self.flow
+
+        async def tapped(m: Any) -> None:
+            flow.begun += 1
+            err: Optional[Exception] = None
+            try:
+                await send(m)
+            except Exception as e:
+                err = e
+                raise
+            finally:
+                flow.done(m, err)
+
+        await self.inner(scope, receive, tapped, sync_spawn, call_soon)
+
+
+def _peer_step(world: Any) -> None:
+    """A slow peer: it reads what the server's transport has buffered and stops reading again at once (so the
+    next block bigger than the high-water mark blocks the next drain), and its own pending HTTP/2 frames
+    (WINDOW_UPDATE, acks) reach the server."""
+    tr = world.transports.get(0)
+    rec = world.conns.get(0)
+    if tr is None or rec is None or tr._conn_lost:
+        return
+    cl = rec.client
+    if cl is not None and cl.h2 is not None and world.enabled(("cmd", 0, "flush")):
+        data = cl.command(("cmd", 0, "flush"))
+        if data:
+            tr.env_feed(data)
+
+    def read_once() -> None:
+        if tr.peer_paused and tr._buffer and not tr._conn_lost:
+            tr.peer_paused = False
+            try:
+                tr._write_ready()
+            finally:
+                tr.peer_paused = True
+
+    world.loop.inject(read_once, context=tr._ctx)
+
+
+def run_e2e(seam: str, req: ref.Req, app: Callable, L: int, split: str, flow: Optional["Flow"] = None,
+            peer: Optional[str] = None) -> Out:
     from hypercorn.app_wrappers import WSGIWrapper
 
     from mc import x_c17_lockstep
@@ -684,11 +972,21 @@ def run_e2e(seam: str, req: ref.Req, app: Callable, L: int, split: str) -> Out:
                 client += [("cmd", 0, "datan", 1, req.body[:half], False), ("cmd", 0, "datan", 1, req.body[half:], True)]
             else:
                 client.append(("cmd", 0, "datan", 1, req.body, True))
-        client += [("cmd", 0, "flush")] * 6  # deliver the client's WINDOW_UPDATEs / acks whenever some are pending
         conn = {"carrier": "h2", "tls": True, "alpn": "h2"}
+    if peer is not None:
+        # the peer is not reading when the response is produced: "stall" - it starts reading for good once the
+        # server cannot go on; "slow" - it reads what is buffered, one buffer-full at a time; "reset" - it goes away
+        # once the server cannot go on; "slow-reset" - it reads one buffer-full first
+        tail = {"slow": [("call", _peer_step)] * SLOW_STEPS + [("resume", 0)], "stall": [("resume", 0)],
+                "reset": [("reset", 0)], "slow-reset": [("call", _peer_step), ("reset", 0)]}[peer]
+        client = [("pause", 0)] + client + tail
+    if seam == "e2e:h2":
+        # deliver the client's WINDOW_UPDATEs / acks whenever some are pending
+        client += [("cmd", 0, "flush")] * (6 if peer is None else 16)
+    wrapper = WSGIWrapper(app, L)
     sc = {
         "level": "conn", "conns": {0: conn}, "client_factory": make_client,
-        "app_factory": lambda world: WSGIWrapper(app, L),
+        "app_factory": lambda world: wrapper if flow is None else Probe(wrapper, flow),
         "config": {"root_path": req.root_path, "keep_alive_timeout": 5},
         "sources": [("client", client)], "midflight": False, "sigs": False,
     }
@@ -725,7 +1023,7 @@ def run_e2e(seam: str, req: ref.Req, app: Callable, L: int, split: str) -> Out:
 
 
 def judge(case: tuple, rec: Rec, out: Out) -> Tuple[List[dict], Any, bool]:
-    seam, rq, spec, L, split = case
+    seam, rq, spec, L, split = case[:5]
     req = req_of(seam, rq)
     kind = spec[0]
     variant = rq[10]
@@ -785,7 +1083,17 @@ def judge(case: tuple, rec: Rec, out: Out) -> Tuple[List[dict], Any, bool]:
 
     # ---- response, close()
     if rec.invocations == 1 and not over:
-        exp = ref.expected_response(kind, spec[1], RHDRSETS[spec[2]], CHUNKSETS[spec[3]])
+        exp = ref.expected_response(kind, spec[1], RHDRSETS[spec[2]], ALL_CHUNKSETS[spec[3]])
+        if rec.flow is not None:
+            # the thread bridge: what the application thread saw of the sends each time it ran
+            seen = set()
+            for clause, key, detail in ref.check_flow(exp.produced, rec.marks):
+                if key not in seen:
+                    seen.add(key)
+                    flag(clause, f"{sclass}:{kind}:{key}", f"{detail} marks={rec.marks} logged={out.logged} raised={out.raised}")
+            if rec.flow.failed or (sclass == "e2e" and "reset" in case[5]):
+                # the harness made a send fail / the peer went away: the response cannot be complete
+                exp = exp._replace(ok=False)
         if not exp.ok and sclass == "e2e":
             # a truncated response (connection closed before the declared end) is how a failure shows on the wire
             view = view._replace(errors=[e for e in view.errors if not e.startswith("client-parser:")])
@@ -809,7 +1117,10 @@ def judge(case: tuple, rec: Rec, out: Out) -> Tuple[List[dict], Any, bool]:
     obs = (ref.environ_digest_view(rec.snap, rec.body_read) if rec.invocations else None, tuple(rec.events),
            rec.close_count, rec.cleanup_count, view.started, view.status, tuple(view.headers or ()) if sclass == "direct"
            else tuple(h for h in (view.headers or ()) if h[0] != b"date"), view.body, view.complete, tuple(view.errors),
-           tuple(out.logged), out.raised, out.ended)
+           tuple(out.logged), out.raised, out.ended,
+           # real loops + real threads: the counters are reproducible only as long as the bridge is synchronous (once it
+           # is not, the two threads race: the verdict stands, its witness values vary) - they stay out of the digest
+           len(rec.marks) if seam in DIRECT_SEAMS else tuple(rec.marks))
     nontrivial = bool(rec.invocations) or view.started
     return viol, obs, nontrivial
 
@@ -821,26 +1132,32 @@ def _short(view: ref.View) -> str:
 
 def execute(params: Any, prefix: List[int]) -> ExecResult:
     case = tuple(params)
-    seam, rq, spec, L, split = case
+    seam, rq, spec, L, split = case[:5]
+    mode = case[5] if len(case) > 5 else None  # flow groups: send behaviour (direct) / peer behaviour (e2e)
     rq, spec = tuple(rq), tuple(spec)
-    case = (seam, rq, spec, L, split)
+    case = (seam, rq, spec, L, split) + ((mode,) if mode is not None else ())
     rec = Rec()
+    if mode is not None:
+        rec.flow = Flow()
     app = make_app(spec, rec)
     req = req_of(seam, rq)
     if seam.startswith("e2e"):
-        out = run_e2e(seam, req, app, L, split)
+        out = run_e2e(seam, req, app, L, split, rec.flow, mode)
     else:
         scope = ws_scope(req) if rq[0] == "websocket" else ref.asgi_scope(req, rq[10])
         msgs = [{"type": "websocket.connect"}] if rq[0] == "websocket" else request_messages(req.body, split)
-        out = run_direct(seam, scope, msgs, app, L)
+        fail_at = int(mode[2:]) if mode is not None and mode.startswith("gf") else None
+        out = run_direct(seam, scope, msgs, app, L, rec.flow, fail_at)
     viol, obs, nontrivial = judge(case, rec, out)
     sample = {"case": repr(case)[:300], "invocations": rec.invocations, "events": rec.events[:12],
               "environ": {k: repr(v)[:60] for k, v in sorted(rec.snap.items())} if isinstance(rec.snap, dict) else None,
               "sent": [repr(m)[:160] for m in out.sent[:6]], "view": _short(out.view) if out.view else None,
-              "logged": out.logged, "raised": out.raised}
+              "logged": out.logged, "raised": out.raised, "flow_marks": [list(m) for m in rec.marks[:12]]}
     if os.environ.get("MC_VERBOSE"):
         print("case:", case)
         print("request spec:", req._replace(body=req.body[:40]))
+        if rec.flow is not None:
+            print("flow marks (event, sends begun, completed, failed, body bytes of completed sends):", rec.marks)
         print("app events:", rec.events, " invocations:", rec.invocations, " close:", rec.close_count,
               " cleanup:", rec.cleanup_count, " app thread != loop thread:", [t != out.loop_thread for t in rec.threads])
         if isinstance(rec.snap, dict):
